@@ -1003,6 +1003,20 @@ burnAmount`, `charges += burnAmount` -/
 def chargeCoinOk : Bool :=
   sdkChargeCoin == ["burnAmount=trunc(amount*rate)", "remaining+=amount-burnAmount", "charges+=burnAmount"]
 
+/-- one statement of the loop over the coins of one deposit, on (`burnAmount`, `remainingAmount`, `cancellationCharges`) — the
+faithful reading of the regenerated tags (round 5); `chargeBodyStep` below still uses the closed form under the flag
+`chargeCoinOk`, `Props.charge_coin_loop_statements` proves the two equal for every rate ≤ 1 (which `Params.valid` enforces) -/
+def chargeCoinStep (rate amt : Nat) (acc : Nat × Nat × Nat) (tag : String) : Nat × Nat × Nat :=
+  if tag == "burnAmount=trunc(amount*rate)" then (mulTrunc amt rate, acc.2.1, acc.2.2)
+  else if tag == "remaining+=amount-burnAmount" then (acc.1, acc.2.1 + (amt - acc.1), acc.2.2)
+  else if tag == "charges+=burnAmount" then (acc.1, acc.2.1, acc.2.2 + acc.1)
+  else acc
+
+/-- the coin loop for the one coin of a deposit, statement by statement: the new (`remainingAmount`, `cancellationCharges`) -/
+def chargeCoinRun (rate amt keep chg : Nat) : Nat × Nat :=
+  let r := sdkChargeCoin.foldl (chargeCoinStep rate amt) (0, keep, chg)
+  (r.2.1, r.2.2)
+
 /-- locals of `ChargeDeposit`: module balance, account balances, `remainingAmount` of the current deposit,
 `cancellationCharges`, a failed bank transfer -/
 structure ChargeLocals where
